@@ -214,3 +214,12 @@ Definition chk_sites (which : N) (s : string) (validator builder consumer : bool
   let vm := if (which =? 0)%N then validator_solve_method_ok s else validator_merge_method_ok s in
   let cm := if (which =? 0)%N then consumer_solve_method_ok s else consumer_merge_method_ok s in
   b2n (Bool.eqb vm validator && Bool.eqb vm builder && Bool.eqb cm consumer).
+
+(** a file loaded with a settings argument: the model predicts Ok/Err from the EFFECTIVE
+    settings (observed: 0 = Ok, 1 = Err), and an accepted load runs with exactly the override *)
+Definition chk_fault_over (ast : jsonF) (over : settings) (observed : N) (loaded : settings) : N :=
+  match loadF (Some over) ast with
+  | LoadOk p => b2n ((observed =? 0)%N && settings_eqb (pset p) over && settings_eqb loaded over)
+  | LoadErr => b2n (observed =? 1)%N
+  | LoadPanic => 1%N
+  end.
